@@ -31,6 +31,12 @@ TABLE = {
         note="Trusted: the outcome classifier (vlib/oracle.py), a CPU-time alarm as the only non-termination detector, RecursionError tolerated above 100 tokens.",
         ref="DESIGN.md section 4, C06",
     ),
+    "C07": dict(
+        technique="round-trip oracle (parse . generate . parse = parse, regenerate = identity) over enumerated small constructs, Hypothesis-generated translation units, corpus and accepted token-mutants, both generator configurations",
+        text="Every 2-operator expression tree, every derivation sequence up to length 2 (quick) / 3 (thorough) in 11 contexts, every small statement tree and switch body, Hypothesis-generated whole translation units, the preprocessed repository corpus, the corner catalogue and accepted token-mutants are round-tripped with reduce_parentheses off and on. Complete inside the enumerated bound, statistical beyond; listed generator findings (F21, F25a, F12*) are excluded by construction or by an AST predicate on the input.",
+        note="Trusted: astdump.dump as structural equality; programs the parser rejects carry no claim.",
+        ref="DESIGN.md section 4, C07",
+    ),
 }
 
 NOT_YET = "check not built yet in this session (work in progress; see DESIGN.md section 9 for the order of work)"
